@@ -86,7 +86,7 @@ class C14(Prop):
         off = rng.randrange(len(pools))
         for i, h in enumerate(hists):
             pool = pools[3] if any(tuple(o) == ("system", 2) for o in h) else pools[(i + off) % len(pools)]
-            cases.append({"pool": pool, "hist": [list(o) for o in h], "seed": rng.randint(0, 10**6), "ext": bool(len(h) > 3 or (i + off) % 5 == 0),
+            cases.append({"pool": pool, "hist": [list(o) for o in h], "seed": rng.randint(0, 10**6), "ext": bool(len(h) > (3 if tier == "quick" else 4) or (i + off) % (5 if tier == "quick" else 40) == 0),
                           "kind": "len%d/%s" % (len(h), "step" if not isinstance(pool["dom"], list) else ("uniform" if len(set(np.diff(pool["dom"]))) == 1 else "nonuniform"))})
         return cases
 
